@@ -190,11 +190,12 @@ theorem removePDR_keeps (s : Sess) (ie : RuleIE) (c : Ctx) :
       simp only []
       split
       · exact ⟨rfl, rfl, rfl, call_ext c _⟩
-      · have h1 : Keeps s s c (c.call { seid := s.localID, op := .remove, kind := .pdr, id := pdrid }).1 :=
+      · have h1 : Keeps s ({ s with pdrs := (alDel s.pdrs pdrid) } : Sess) c
+            (c.call { seid := s.localID, op := .remove, kind := .pdr, id := pdrid }).1 :=
           ⟨rfl, rfl, rfl, call_ext c _⟩
-        have h2 := diassociateAll_keeps s us (c.call { seid := s.localID, op := .remove, kind := .pdr, id := pdrid }).1
-        obtain ⟨a, b, n, e⟩ := h1.trans h2
-        exact ⟨a, b, n, e⟩
+        have h2 := diassociateAll_keeps ({ s with pdrs := (alDel s.pdrs pdrid) } : Sess) us
+          (c.call { seid := s.localID, op := .remove, kind := .pdr, id := pdrid }).1
+        exact h1.trans h2
 
 theorem updateURR_keeps (s : Sess) (ie : RuleIE) (c : Ctx) :
     Keeps s (s.updateURR ie c).1 c (s.updateURR ie c).2.1 := by
